@@ -276,9 +276,9 @@ pub fn property(_ctx: &Ctx) -> Property {
         rule: "part rect: finite x,y,w,h (random, integers, +-0, tiny, +-3999, +-1e6; negative and zero sizes), optionally after other ops; oracle = the exact five ops with f32 sums. part arc: centre +-100, r in {0, 1e-3, 0.5..200}, start in +-4pi, sweep in +-6pi plus 0/+-2pi/multiples of pi/4/tiny, with or without a current point; oracle = f64 evaluation of the returned ops (leading LineTo to the start point, only QuadTo after, every sampled point at distance r within 0.5%, polar angle monotone in the sweep direction, total angle = clamp(sweep,+-2pi), end point). part transform: random op lists (all op kinds, any order) x all transform classes incl. singular and mirrored; oracle = same op kinds in order, every point = T*p in f64 within 4 ulp, winding kept, finish() preserves call order. Non-trivial: arc with |sweep|>pi/4 or negative sweep; rect with w != h and negative size or non-zero origin; non-identity transform on >=2 ops; distinct by hash of the case.",
         assumptions: vec!["f32 noise floor of 4e-6*(|centre|+r+1) added to the 0.5% radius tolerance; angle checks skipped when r is below 1000x that floor"],
         parts: vec![
-            part_outside_c07("rect", 20_000, 500_000, rect_strategy, check_rect),
-            part_outside_c07("arc", 40_000, 1_500_000, arc_strategy, check_arc),
-            part_outside_c07("transform", 20_000, 500_000, xf_strategy, check_xf),
+            part_outside_c07("rect", 50_000, 800_000, rect_strategy, check_rect),
+            part_outside_c07("arc", 120_000, 2_500_000, arc_strategy, check_arc),
+            part_outside_c07("transform", 50_000, 800_000, xf_strategy, check_xf),
         ],
         min_class_fraction: vec![("arc", "negative-sweep", 0.3), ("arc", "beyond-full-turn", 0.1), ("arc", "multi-quad", 0.5), ("rect", "negative-size", 0.2)],
         panic_is_violation: false,
